@@ -126,10 +126,10 @@ class DAG(nx.DiGraph):
         else:
             attrs = {"weight": weight}
 
+        super(DAG, self).add_node(node, weight=weight)
+
         if latent:
             self.latents.add(node)
-
-        super(DAG, self).add_node(node, weight=weight)
 
     def add_nodes_from(self, nodes, weights=None, latent=False):
         """
